@@ -477,13 +477,20 @@ func (in *interp) method(s *Service, m *Method) {
 			dsl.NoSecurity()
 		}
 		in.creds = m.Creds
-		in.methodAtt(dsl.Payload, m.Payload)
+		payloadFn, resultFn := dsl.Payload, dsl.Result
+		if m.Stream == "payload" || m.Stream == "both" {
+			payloadFn = dsl.StreamingPayload
+		}
+		if m.Stream == "result" || m.Stream == "both" {
+			resultFn = dsl.StreamingResult
+		}
+		in.methodAtt(payloadFn, m.Payload)
 		in.creds = nil
 		if m.Result != nil {
 			if m.ResultView != "" {
-				in.methodAtt(dsl.Result, &Att{Type: m.Result.Type, Desc: m.Result.Desc, Val: m.Result.Val, View: m.ResultView})
+				in.methodAtt(resultFn, &Att{Type: m.Result.Type, Desc: m.Result.Desc, Val: m.Result.Val, View: m.ResultView})
 			} else {
-				in.methodAtt(dsl.Result, m.Result)
+				in.methodAtt(resultFn, m.Result)
 			}
 		}
 		for _, e := range m.Errors {
@@ -500,6 +507,34 @@ func (in *interp) method(s *Service, m *Method) {
 					dsl.Metadata(func() {
 						for _, md := range m.GRPC.Metadata {
 							dsl.Attribute(mapped(md))
+						}
+					})
+				}
+				if len(m.GRPC.Message) > 0 {
+					dsl.Message(func() {
+						for _, a := range m.GRPC.Message {
+							dsl.Attribute(a)
+						}
+					})
+				}
+				if m.GRPC.Code != 0 || len(m.GRPC.Headers) > 0 || len(m.GRPC.Trailers) > 0 {
+					dsl.Response(func() {
+						if m.GRPC.Code != 0 {
+							dsl.Code(m.GRPC.Code)
+						}
+						if len(m.GRPC.Headers) > 0 {
+							dsl.Headers(func() {
+								for _, h := range m.GRPC.Headers {
+									dsl.Attribute(mapped(h))
+								}
+							})
+						}
+						if len(m.GRPC.Trailers) > 0 {
+							dsl.Trailers(func() {
+								for _, h := range m.GRPC.Trailers {
+									dsl.Attribute(mapped(h))
+								}
+							})
 						}
 					})
 				}
